@@ -42,6 +42,8 @@ CONSTANTS Ids,                 \* possible unit ids (the id generator may pick a
           RunEnabled,          \* FALSE: units are never started (id-uniqueness configuration)
           Ops,                 \* subset of {"submit","cancel","release","status"} the clients use
           FindUnitHoldsRLock,  \* TRUE: findUnit keeps the read lock while rescanning (the code before the fix)
+          ScanRegistersAlias,  \* TRUE: the on-demand rescan registers a unit under the spelling it was asked for (seeded defect
+                               \* c13-scan-registers-alias-of-unit); FALSE: under the directory's own name (the code)
           UnregFirst,          \* TRUE: Release drops the unit from activeUnits BEFORE it removes the directory (seeded defect
                                \* c13-release-delete-before-rm); FALSE: RemoveAll first, delete last (the code)
           TruncFirst,          \* TRUE: UpdateFullStatus truncates before it writes (the code before its repair)
@@ -105,13 +107,14 @@ VARIABLES
   emptyRec, \* [Ids -> BOOLEAN]         recovery found an empty status file (known finding)
   liveFail, \* [Ids -> BOOLEAN]         Restart marked the unit Failed ("Pending at restart") while its runner was alive
   crashes,  \* Nat
+  alias,    \* SUBSET Ids: directories that are registered a second time under a non-canonical spelling of their id
   bad       \* set of strings: violated step properties (C13), filled at the steps themselves
 
 vars == <<dir, sfile, stdin, stdout, flock, up, active, mem, mon, alock, todo, loc, uid, ufs, rl, ours, rsig, child, ticks,
-          opsLeft, acked, told, pre, relreq, cnreq, released, gen, emptyRec, liveFail, crashes, bad>>
+          opsLeft, acked, told, pre, relreq, cnreq, released, gen, emptyRec, liveFail, crashes, alias, bad>>
 
 disk == <<dir, sfile, stdin, stdout>>
-book == <<opsLeft, acked, told, pre, relreq, cnreq, released, gen, emptyRec, liveFail, crashes>>
+book == <<opsLeft, acked, told, pre, relreq, cnreq, released, gen, emptyRec, liveFail, crashes, alias>>
 
 Fresh(ty) == Rec("P", 0, ty, FALSE)
 
@@ -129,7 +132,7 @@ Init ==
   /\ acked = [i \in Ids |-> FALSE] /\ told = [i \in Ids |-> NoTold] /\ pre = [i \in Ids |-> NoTold]
   /\ relreq = [i \in Ids |-> FALSE] /\ released = [i \in Ids |-> FALSE] /\ cnreq = [i \in Ids |-> FALSE]
   /\ gen = [i \in Ids |-> 0] /\ emptyRec = [i \in Ids |-> FALSE] /\ liveFail = [i \in Ids |-> FALSE]
-  /\ crashes = 0 /\ bad = {}
+  /\ crashes = 0 /\ bad = {} /\ alias = {}
 
 \* ---------------------------------------------------------------- helpers
 RunnerAlive(i) == loc[RT(i)] \notin {"idle", "zombie", "dead"}
@@ -200,7 +203,7 @@ UFS_Read(a) ==
   \* whatever its own object holds: for the runner and for the recovery scan that is a record WITHOUT work type
   /\ emptyRec' = [emptyRec EXCEPT ![uid[a]] = @ \/ sfile[uid[a]] = Empty]
   /\ UNCHANGED <<disk, flock, up, active, mon, alock, todo, loc, uid, ours, rsig, child, ticks,
-                 opsLeft, acked, told, pre, relreq, cnreq, released, gen, liveFail, crashes, bad>>
+                 opsLeft, acked, told, pre, relreq, cnreq, released, gen, liveFail, crashes, alias, bad>>
 
 UFS_Apply(a) ==
   /\ Alive(a) /\ ufs[a] = "read"
@@ -255,7 +258,7 @@ AllocMkdir(c, i) ==
   /\ relreq' = [relreq EXCEPT ![i] = FALSE] /\ released' = [released EXCEPT ![i] = FALSE]
   /\ cnreq' = [cnreq EXCEPT ![i] = FALSE]
   /\ emptyRec' = [emptyRec EXCEPT ![i] = FALSE] /\ liveFail' = [liveFail EXCEPT ![i] = FALSE]
-  /\ UNCHANGED <<sfile, stdin, stdout, flock, up, active, mon, todo, ufs, rl, ours, rsig, child, ticks, crashes, bad>>
+  /\ UNCHANGED <<sfile, stdin, stdout, flock, up, active, mon, todo, ufs, rl, ours, rsig, child, ticks, crashes, alias, bad>>
 
 \* Save: lock + os.OpenFile(O_CREATE|O_TRUNC)
 SaveCreateTrunc(c) ==
@@ -292,7 +295,7 @@ Ack(c) ==
   /\ acked' = [acked EXCEPT ![uid[c]] = TRUE]
   /\ Goto(c, "sb_copy")
   /\ UNCHANGED <<disk, flock, up, active, mem, mon, alock, todo, uid, ufs, rl, ours, rsig, child, ticks,
-                 opsLeft, told, pre, relreq, cnreq, released, gen, emptyRec, liveFail, crashes, bad>>
+                 opsLeft, told, pre, relreq, cnreq, released, gen, emptyRec, liveFail, crashes, alias, bad>>
 
 StdinCopy(c) ==
   /\ up /\ loc[c] = "sb_copy"
@@ -399,7 +402,7 @@ StatusQuery(c, i) ==
                  ELSE bad \cup (IF Stage(new.st) < Stage(old.st) THEN {"ReportedStageMonotone"} ELSE {})
                           \cup (IF old.st = "S" /\ new # old /\ "KF_CancelOverS" \notin bad THEN {"ReportedSucceededIsFinal"} ELSE {})
   /\ UNCHANGED <<disk, flock, up, active, mem, mon, alock, todo, loc, uid, ufs, rl, ours, rsig, child, ticks,
-                 acked, pre, relreq, cnreq, released, gen, emptyRec, liveFail, crashes>>
+                 acked, pre, relreq, cnreq, released, gen, emptyRec, liveFail, crashes, alias>>
 
 \* findUnit for an id that is not in memory but has a directory: rescan.  With FindUnitHoldsRLock the goroutine asks
 \* for the write lock while holding the read lock: it never returns, and nobody can take the lock exclusively again.
@@ -411,6 +414,16 @@ StatusUnknown(c, i) ==
   /\ IF FindUnitHoldsRLock THEN alock' = c /\ Goto(c, "st_blocked")
                            ELSE UNCHANGED alock /\ Goto(c, "sc_peek")
   /\ UNCHANGED <<disk, flock, up, active, mem, mon, todo, ufs, rl, ours, rsig, child, ticks,
+                 acked, told, pre, relreq, cnreq, released, gen, emptyRec, liveFail, crashes, alias, bad>>
+
+\* a command that names an existing unit by a non-canonical spelling of its id ("<id>/", "./<id>", "<id>/.", "x/../<id>"):
+\* findUnit -> scanForUnit finds the directory; registered under the directory's own name it is already known, so the
+\* spelling stays an unknown work unit and the command has no effect.
+AliasLookup(c, i) ==
+  /\ up /\ loc[c] = "idle" /\ opsLeft[c] > 0 /\ "status" \in Ops /\ dir[i] /\ alock = None
+  /\ opsLeft' = [opsLeft EXCEPT ![c] = @ - 1]
+  /\ alias' = IF ScanRegistersAlias THEN alias \cup {i} ELSE alias
+  /\ UNCHANGED <<disk, flock, up, active, mem, mon, alock, todo, loc, uid, ufs, rl, ours, rsig, child, ticks,
                  acked, told, pre, relreq, cnreq, released, gen, emptyRec, liveFail, crashes, bad>>
 
 \* Cancel (command.go): read the pid from memory, SIGINT the runner, Wait, mark Canceled
@@ -424,7 +437,7 @@ CancelBegin(c, i, rel) ==
   /\ mon' = [mon EXCEPT ![i] = FALSE]                       \* cw.CancelContext() stops the monitor
   /\ Goto(c, IF ~mem[i].pid THEN (IF rel THEN "rl_rm" ELSE "done")
              ELSE IF rel THEN "rl_signal" ELSE "cn_signal")
-  /\ UNCHANGED <<disk, flock, up, active, mem, alock, todo, ufs, rl, ours, rsig, child, ticks, acked, told, pre, released, gen, emptyRec, liveFail, crashes, bad>>
+  /\ UNCHANGED <<disk, flock, up, active, mem, alock, todo, ufs, rl, ours, rsig, child, ticks, acked, told, pre, released, gen, emptyRec, liveFail, crashes, alias, bad>>
 
 CancelSignal(c) ==
   /\ up /\ loc[c] \in {"cn_signal", "rl_signal"}
@@ -454,7 +467,7 @@ ReleaseRm(c) ==
        /\ released' = [released EXCEPT ![i] = @ \/ UnregFirst]
   /\ Goto(c, IF UnregFirst THEN "done" ELSE RelSecond)
   /\ UNCHANGED <<flock, up, active, mem, mon, alock, todo, uid, ufs, rl, ours, rsig, child, ticks,
-                 opsLeft, acked, told, pre, relreq, cnreq, gen, emptyRec, liveFail, crashes, bad>>
+                 opsLeft, acked, told, pre, relreq, cnreq, gen, emptyRec, liveFail, crashes, alias, bad>>
 
 ReleaseUnreg(c) ==
   /\ up /\ loc[c] = (IF UnregFirst THEN RelFirst ELSE RelSecond) /\ alock = None
@@ -463,7 +476,7 @@ ReleaseUnreg(c) ==
        /\ released' = [released EXCEPT ![i] = @ \/ ~UnregFirst]
        /\ gen' = [gen EXCEPT ![i] = 0]
   /\ Goto(c, IF UnregFirst THEN RelSecond ELSE "done")
-  /\ UNCHANGED <<disk, flock, up, mem, mon, alock, todo, uid, ufs, rl, ours, rsig, child, ticks, opsLeft, acked, told, pre, relreq, cnreq, emptyRec, liveFail, crashes, bad>>
+  /\ UNCHANGED <<disk, flock, up, mem, mon, alock, todo, uid, ufs, rl, ours, rsig, child, ticks, opsLeft, acked, told, pre, relreq, cnreq, emptyRec, liveFail, crashes, alias, bad>>
 
 \* ---------------------------------------------------------------- crash, restart, recovery scan
 ReleaseLocksOf(S) == [i \in Ids |-> IF flock[i] \in S THEN None ELSE flock[i]]
@@ -478,7 +491,7 @@ CrashDaemon ==
   /\ uid' = [a \in Actors |-> IF IsDaemon(a) THEN None ELSE uid[a]]
   /\ ufs' = [a \in Actors |-> IF IsDaemon(a) THEN "none" ELSE ufs[a]]
   /\ ours' = [i \in Ids |-> FALSE]
-  /\ pre' = told
+  /\ pre' = told /\ alias' = {}
   /\ UNCHANGED <<disk, rl, rsig, child, ticks, opsLeft, acked, told, relreq, cnreq, released, gen, emptyRec, liveFail, bad>>
 
 CrashRunner(i) ==    \* SIGKILL of the supervisor: the payload keeps running, nobody records its end
@@ -488,7 +501,7 @@ CrashRunner(i) ==    \* SIGKILL of the supervisor: the payload keeps running, no
   /\ ufs' = [ufs EXCEPT ![RT(i)] = "none"]
   /\ Goto(RT(i), "zombie")
   /\ UNCHANGED <<disk, up, active, mem, mon, alock, todo, uid, rl, ours, rsig, child, ticks,
-                 opsLeft, acked, told, pre, relreq, cnreq, released, gen, emptyRec, liveFail, bad>>
+                 opsLeft, acked, told, pre, relreq, cnreq, released, gen, emptyRec, liveFail, alias, bad>>
 
 Restart ==           \* RegisterWorker -> scanForUnits: one scanForUnit per directory
   /\ ~up
@@ -510,7 +523,7 @@ ScanPeek(a) ==
   /\ up /\ loc[a] = "sc_peek" /\ flock[uid[a]] = None
   /\ LET i == uid[a] IN
        CASE sfile[i] = Absent \/ ~dir[i] ->
-              /\ Goto(a, "done") /\ UNCHANGED <<mem, emptyRec>>
+              /\ Goto(a, "done") /\ UNCHANGED <<mem, emptyRec, alias>>
          [] sfile[i] = Empty ->
               /\ mem' = [mem EXCEPT ![i] = Fresh("")]             \* unknownUnit with WorkType ""
               /\ emptyRec' = [emptyRec EXCEPT ![i] = TRUE]
@@ -520,7 +533,7 @@ ScanPeek(a) ==
               /\ UNCHANGED emptyRec
               /\ Goto(a, "sc_restart")
   /\ UNCHANGED <<disk, flock, up, active, mon, alock, todo, uid, ufs, rl, ours, rsig, child, ticks,
-                 opsLeft, acked, told, pre, relreq, cnreq, released, gen, liveFail, crashes, bad>>
+                 opsLeft, acked, told, pre, relreq, cnreq, released, gen, liveFail, crashes, alias, bad>>
 
 \* commandUnit.Restart: complete -> nothing; pending -> "Pending at restart" Failed; else monitor.  unknownUnit: nothing.
 ScanRestart(a) ==
@@ -533,7 +546,7 @@ ScanRestart(a) ==
   /\ liveFail' = [liveFail EXCEPT ![uid[a]] = @ \/ (mem[uid[a]].ty = "cmd" /\ mem[uid[a]].st = "P"
                                                           /\ (RunnerAlive(uid[a]) \/ (IsRec(sfile[uid[a]]) /\ sfile[uid[a]].st # "P")))]
   /\ UNCHANGED <<disk, flock, up, active, mem, alock, todo, uid, ufs, rl, ours, rsig, child, ticks,
-                 opsLeft, acked, told, pre, relreq, cnreq, released, gen, emptyRec, crashes, bad>>
+                 opsLeft, acked, told, pre, relreq, cnreq, released, gen, emptyRec, crashes, alias, bad>>
 
 ScanRegister(a) ==
   /\ up /\ loc[a] = "sc_reg" /\ (alock = None \/ alock = a)
@@ -546,7 +559,7 @@ ScanRegister(a) ==
 \* ----------------------------------------------------------------
 Next ==
   \/ \E a \in Actors : UFS_Lock(a) \/ UFS_Read(a) \/ UFS_Apply(a) \/ UFS_Trunc(a) \/ UFS_Write(a) \/ UFS_Unlock(a) \/ Finish(a)
-  \/ \E c \in Sess : \/ \E i \in Ids : AllocMkdir(c, i) \/ StatusQuery(c, i) \/ StatusUnknown(c, i)
+  \/ \E c \in Sess : \/ \E i \in Ids : AllocMkdir(c, i) \/ StatusQuery(c, i) \/ StatusUnknown(c, i) \/ AliasLookup(c, i)
                                         \/ CancelBegin(c, i, FALSE) \/ CancelBegin(c, i, TRUE)
                      \/ SaveCreateTrunc(c) \/ SaveWrite(c) \/ SaveUnlockRegister(c) \/ StdinCreate(c) \/ Ack(c) \/ StdinCopy(c)
                      \/ SpawnRunner(c) \/ CancelSignal(c) \/ CancelWait(c) \/ ReleaseRm(c) \/ ReleaseUnreg(c)
@@ -576,7 +589,7 @@ SizeMonotone     == "SizeMonotone" \notin bad
 ReleaseRemoves == \A i \in Ids : released[i] => (~dir[i] /\ i \notin active /\ sfile[i] = Absent)
 
 \* no two live allocations share an id (= a directory)
-UniqueIDs == \A i \in Ids : gen[i] <= 1
+UniqueIDs == (\A i \in Ids : gen[i] <= 1) /\ alias = {}      \* ... and a directory is known under exactly one id
 
 \* after Cancel has answered, the unit's supervisor is gone and the payload with it
 CancelStops == \A c \in Sess : (loc[c] \in {"cn_u_cancel", "rl_u_cancel"} /\ ours[uid[c]])
